@@ -1022,6 +1022,18 @@ val ir_seg : z -> z -> seg -> bool
 
 val ints_in_range : z -> z -> query -> bool
 
+val hexv : n -> z option
+
+val hex4 : n -> n -> n -> n -> z option
+
+val is_high : z -> bool
+
+val is_low : z -> bool
+
+val raw_ok : n -> n -> bool
+
+val spec_decode : n -> str -> str option
+
 val iota_json : z -> json list
 
 val enc_sel0 : (z * json) list -> z list
@@ -1047,5 +1059,7 @@ val op_compile : z list -> z list
 val op_in_rfc : z list -> z list
 
 val op_valid : z list -> z list
+
+val op_strlit : z list -> z list
 
 val dispatch : z list -> z list
